@@ -339,6 +339,45 @@ def handleFuseImg (toks : List String) (srcGrid : Bool := false) (pmask : Bool :
     | _, _, _, _, _, _, _, _ => "bad-args"
   | _ => "bad-args"
 
+/-- fuseimgblk <sr> <sc> <vr> <vc> <model> <kh> <kw> <ups> <n0> <n1> axes S .. R .. → corrected source pixels as computed by the
+    block that writes each of them (reference-grid processing; block shape `sr x sc`, overlap `vr x vc`) -/
+def handleFuseImgBlk (toks : List String) : String :=
+  match toks with
+  | srs :: scs :: vrs :: vcs :: ms :: kh :: kw :: us :: n0 :: n1 :: rest =>
+    let wide : Option Wide := match us with
+      | "cubic" => some .cubic | "cubic_spline" => some .cubicSpline | _ => none
+    let ups : Option Resampling := match us with
+      | "nearest" => some .nearest | "bilinear" => some .bilinear | "average" => some .average
+      | "cubic" | "cubic_spline" => some .nearest
+      | _ => none
+    match ints [srs, scs, vrs, vcs], parseModel ms, kh.toNat?, kw.toNat?, ups, parseRat n0, parseRat n1, ints (rest.take 12), rest.drop 12 with
+    | some [bsr, bsc, vr, vc], some model, some kh, some kw, some ups, some n0, some n1, some [a, b, c, d, e, f, g, h, i, j, k, l], "S" :: vals =>
+      let sr : Axis := ⟨a, b, c⟩; let sc : Axis := ⟨d, e, f⟩; let rr : Axis := ⟨g, h, i⟩; let rc : Axis := ⟨j, k, l⟩
+      let sT := vals.takeWhile (· ≠ "R")
+      let rT := (vals.dropWhile (· ≠ "R")).drop 1
+      match parseGrid sT, parseGrid rT with
+      | some sa, some ra =>
+        if sa.size ≠ (c * f).toNat || ra.size ≠ (i * l).toNat || bsr ≤ 0 || bsc ≤ 0 then "bad-args" else
+        let mk (arr : Array (Option Rat)) (nr nc : Int) : ImgO := fun r cc =>
+          if 0 ≤ r ∧ r < nr ∧ 0 ≤ cc ∧ cc < nc then arr.getD (r.toNat * nc.toNat + cc.toNat) none else none
+        let p : ImagePair := ⟨sr, sc, rr, rc, mk sa c f, mk ra i l⟩
+        let nbr := nBlocks (refWin sr rr).lo (refWin sr rr).hi bsr
+        let nbc := nBlocks (refWin sc rc).lo (refWin sc rc).hi bsc
+        let rowBlk : Nat → Option Nat := fun r => (List.range nbr).find? fun kr =>
+          decide ((p.blockRows bsr vr kr).oout.lo ≤ (r : Int)) && decide ((r : Int) < (p.blockRows bsr vr kr).oout.hi)
+        let colBlk : Nat → Option Nat := fun cc => (List.range nbc).find? fun kc =>
+          decide ((p.blockCols bsc vc kc).oout.lo ≤ (cc : Int)) && decide ((cc : Int) < (p.blockCols bsc vc kc).oout.hi)
+        " ".intercalate ((List.range c.toNat).flatMap fun (r : Nat) => (List.range f.toNat).map fun (cc : Nat) =>
+          match rowBlk r, colBlk cc with
+          | some kr, some kc =>
+            showORat (match wide with
+              | some w => p.correctedWideByBlock model kh kw n0 n1 w bsr bsc vr vc kr kc r cc
+              | none => p.correctedByBlock model kh kw n0 n1 ups bsr bsc vr vc kr kc r cc)
+          | _, _ => "?")
+      | _, _ => "bad-args"
+    | _, _, _, _, _, _, _, _, _ => "bad-args"
+  | _ => "bad-args"
+
 def handle (toks : List String) : String :=
   match toks with
   | "blocks1" :: rest =>
@@ -424,6 +463,7 @@ def handle (toks : List String) : String :=
   | "fit" :: rest => handleFit rest
   | "fuseimg" :: rest => handleFuseImg rest
   | "fuseimgsrc" :: rest => handleFuseImg rest true
+  | "fuseimgblk" :: rest => handleFuseImgBlk rest
   | "pmask" :: rest => handleFuseImg rest false true
   | "pmasksrc" :: rest => handleFuseImg rest true true
   | "merge" :: rest => handleMerge rest
